@@ -30,6 +30,11 @@ def run(ctx, chk):
     npc = DR.payload_reads(chk, "C14.payload-copy", prog, eff, O.PathCache(prog, eff))
     chk.floor("C14.payload-copy", "payload reads in the string builders", npc, 2)
 
+    chk.rule("C14.no-silent-drop", "a decoded head never vanishes: every path of every builder callback hands its item off or raises "
+                                   "an error flag - otherwise the open container would be completed by what follows x (shared with C05)")
+    from props.c05 import check_no_silent_drop
+    check_no_silent_drop(chk, "C14.no-silent-drop", prog, eff)
+
     f = prog.fn("cbor_load")
     where = "%s:%d" % (f.file, f.line)
     src_i, size_i, res_i = f.param_index("source"), f.param_index("source_size"), f.param_index("result")
